@@ -261,12 +261,20 @@ func solve(lite, full string, timeoutS int, thorough bool, expectSat bool) (Solv
 		return r, all
 	}
 	best := r
+	liteSat := r.Status == "sat"
 	if r.Status != "unsat" {
 		r2 := runSolver("z3-new", full, timeoutS)
 		all = append(all, r2)
 		best = r2
 		if (r2.Status == "unsat" || r2.Status == "sat") && !thorough {
 			return r2, all
+		}
+		if liteSat && !thorough {
+			// the full query is undecided but the query without the quantified heap axioms has a model:
+			// reported as refuted-on-the-lite-query; the model is only a candidate until replayed
+			best.Status = "sat-lite"
+			best.Solver = "z3-new(lite)"
+			return best, all
 		}
 	}
 	type job struct{ solver, file, tag string }
@@ -293,7 +301,11 @@ func solve(lite, full string, timeoutS int, thorough bool, expectSat bool) (Solv
 		}
 	}
 	if best.Solver == "z3-new(lite)" && best.Status == "sat" {
-		best.Status = "unknown"
+		best.Status = "sat-lite"
+	}
+	if liteSat && best.Status != "unsat" && best.Status != "sat" {
+		best.Status = "sat-lite"
+		best.Solver = "z3-new(lite)"
 	}
 	return best, all
 }
